@@ -24,7 +24,10 @@ def gen_cases(rng, n, tier):
     cfgs = (B.all_cfgs('blog', dict(excl_notes=True))[::2] + B.all_cfgs('blog')[::4]
             + B.all_cfgs('blog', dict(include_x=True))[::8] + B.all_cfgs('blog', dict(excl_fk=True))[::4]
             # the exclude set given to make_versioned() only (no class-level 'exclude' key)
-            + B.all_cfgs('blog', dict(mgr_excl=True))[::3] + B.all_cfgs('blog', dict(mgr_excl=True, excl_notes=True))[::5])
+            + B.all_cfgs('blog', dict(mgr_excl=True))[::3] + B.all_cfgs('blog', dict(mgr_excl=True, excl_notes=True))[::5]
+            # a hierarchy whose base class excludes a column; subclasses inherit __versioned__ or declare their own
+            + [c for c in B.all_cfgs('inh', dict(base_excl=True)) if not c['null_delete']][::3]
+            + [c for c in B.all_cfgs('inh', dict(base_excl=True, own_v=True)) if not c['null_delete']][::2])
     cases = B.gen_cases_default(rng, n, tier, cfgs=cfgs)
     # bias: inject excluded-only transactions
     for i, c in enumerate(cases):
@@ -48,6 +51,11 @@ def corpus():
                  prog=[['add', 0, 1, {'a': 1}], ['add', 3, 1, {'a': 0}], ['commit'], ['noteto', 1, 1], ['commit'],
                        ['set', 0, 1, {'x': 5}], ['commit'], ['set', 0, 1, {'x': 6}], ['tagappend', 1, 1], ['commit']]),
             # exclusion configured for the manager only: transactions changing only the excluded column
+            # joined / single-table children that declare their own __versioned__: the excluded column of the base class
+            dict(cfg=dict(shape='inh', strategy='validity', changes=False, tracker=False, null_delete=False, autoflush=False,
+                          base_excl=True, own_v=True),
+                 prog=[['add', 1, 1, {'a': 1, 'pages': 1, 'x': 1}], ['add', 2, 2, {'a': 1, 'tracks': 1, 'x': 1}], ['commit'],
+                       ['set', 1, 1, {'x': 5}], ['commit'], ['set', 2, 2, {'x': 5}], ['commit'], ['set', 1, 1, {'pages': 2}], ['commit']]),
             dict(cfg=dict(shape='blog', strategy='validity', mgr_excl=True),
                  prog=[['add', 0, 1, {'a': 1, 'x': 1}], ['commit'], ['set', 0, 1, {'x': 5}], ['commit'],
                        ['set', 0, 1, {'a': 2}], ['commit'], ['set', 0, 1, {'x': 6}], ['commit']])]
